@@ -298,6 +298,51 @@ impl Srv {
                 files.sort();
                 json!({"r": "ok", "files": files})
             }
+            "raw" => {
+                // a raw TCP connection: optional proper login frame first, then arbitrary bytes; reports what came back
+                use iggy::bytes_serializable::BytesSerializable;
+                use iggy::command::Command;
+                use tokio::io::{AsyncReadExt, AsyncWriteExt};
+                let mut out = json!({"r": "ok"});
+                match tokio::net::TcpStream::connect(self.addr).await {
+                    Err(e) => json!({"r": "err", "name": format!("connect: {e}")}),
+                    Ok(mut sock) => {
+                        let mut frames: Vec<Vec<u8>> = vec![];
+                        if op.get("login").and_then(|v| v.as_bool()).unwrap_or(false) {
+                            let cmd = iggy::users::login_user::LoginUser { username: "iggy".into(), password: "iggy".into(), version: None, context: None };
+                            let payload = cmd.to_bytes();
+                            let mut f = vec![];
+                            f.extend_from_slice(&((payload.len() + 4) as u32).to_le_bytes());
+                            f.extend_from_slice(&cmd.code().to_le_bytes());
+                            f.extend_from_slice(&payload);
+                            frames.push(f);
+                        }
+                        let h = s(op, "hex");
+                        frames.push((0..h.len() / 2).map(|i| u8::from_str_radix(&h[2 * i..2 * i + 2], 16).unwrap()).collect());
+                        let mut replies = vec![];
+                        for f in frames {
+                            if sock.write_all(&f).await.is_err() {
+                                replies.push(json!("write_failed"));
+                                break;
+                            }
+                            let mut head = [0u8; 8];
+                            match tokio::time::timeout(std::time::Duration::from_millis(300), sock.read_exact(&mut head)).await {
+                                Err(_) => replies.push(json!("no_reply")),
+                                Ok(Err(_)) => replies.push(json!("closed")),
+                                Ok(Ok(_)) => {
+                                    let status = u32::from_le_bytes(head[0..4].try_into().unwrap());
+                                    let len = u32::from_le_bytes(head[4..8].try_into().unwrap()) as usize;
+                                    let mut body = vec![0u8; len.min(1 << 20)];
+                                    let _ = tokio::time::timeout(std::time::Duration::from_millis(300), sock.read_exact(&mut body)).await;
+                                    replies.push(json!({"status": status, "len": len}));
+                                }
+                            }
+                        }
+                        out["replies"] = json!(replies);
+                        out
+                    }
+                }
+            }
             "connect" => {
                 self.client(&cname).await;
                 json!({"r": "ok"})
